@@ -366,4 +366,171 @@ theorem mem_addrs_take_append {l : List PexPeer} {n : Nat} {a : Addr} (x : List 
   rw [addrs_append]
   exact List.mem_append.2 (Or.inl h)
 
+/-! ### the pexState follows the set of peers it is told about -/
+
+/-- the set of addresses a sequence of `add`/`del` describes (ticks do not matter) -/
+def aview : List Addr → List Op → List Addr
+  | v, [] => v
+  | v, .add p :: ops => aview (if v.contains (addrOf p) then v else addrOf p :: v) ops
+  | v, .del p :: ops => aview (v.filter (fun a => a != addrOf p)) ops
+  | v, .send _ :: ops => aview v ops
+
+/-- `sent ∪ pending` is the set of peers the state has been told are there -/
+def Tracks (g : G) (v : List Addr) : Prop :=
+  ∀ a, (a ∈ addrs g.st.sent ∨ a ∈ addrs g.st.pending) ↔ a ∈ v
+
+theorem Tracks_step {g : G} {v : List Addr} (hI : PInv g) (h : Tracks g v) (op : Op) :
+    Tracks (step g op).1 (aview v [op]) := by
+  cases op with
+  | add p =>
+    have hv : ∀ a, a ∈ aview v [.add p] ↔ a ∈ v ∨ a = addrOf p := by
+      intro a
+      simp only [aview]
+      split
+      · rename_i hc
+        have := List.contains_iff_mem.1 hc
+        constructor
+        · exact Or.inl
+        · rintro (h | rfl)
+          · exact h
+          · exact this
+      · simp only [List.mem_cons]
+        constructor
+        · rintro (h | h)
+          · exact Or.inr h
+          · exact Or.inl h
+        · rintro (h | h)
+          · exact Or.inr h
+          · exact Or.inl h
+    intro a
+    rw [hv a, ← h a]
+    simp only [step, add]
+    cases hD : find p g.st.pendingDel with
+    | some i =>
+      simp only [addrs_append, addrs_single, List.mem_append, List.mem_singleton]
+      constructor
+      · rintro ((h1 | h1) | h1)
+        · exact Or.inl (Or.inl h1)
+        · exact Or.inr h1
+        · exact Or.inl (Or.inr h1)
+      · rintro ((h1 | h1) | h1)
+        · exact Or.inl (Or.inl h1)
+        · exact Or.inr h1
+        · exact Or.inl (Or.inr h1)
+    | none =>
+      simp only
+      cases hS : find p g.st.sent with
+      | some _ =>
+        simp only
+        have := find_some_mem hS
+        constructor
+        · exact Or.inl
+        · rintro (h1 | rfl)
+          · exact h1
+          · exact Or.inl this
+      | none =>
+        simp only
+        cases hP : find p g.st.pending with
+        | some _ =>
+          simp only
+          have := find_some_mem hP
+          constructor
+          · exact Or.inl
+          · rintro (h1 | rfl)
+            · exact h1
+            · exact Or.inr this
+        | none =>
+          simp only [addrs_append, addrs_single, List.mem_append, List.mem_singleton]
+          constructor
+          · rintro (h1 | h1 | h1)
+            · exact Or.inl (Or.inl h1)
+            · exact Or.inl (Or.inr h1)
+            · exact Or.inr h1
+          · rintro ((h1 | h1) | h1)
+            · exact Or.inl h1
+            · exact Or.inr (Or.inl h1)
+            · exact Or.inr (Or.inr h1)
+  | del p =>
+    have hv : ∀ a, a ∈ aview v [.del p] ↔ a ∈ v ∧ a ≠ addrOf p := by
+      intro a; simp [aview, List.mem_filter]
+    intro a
+    rw [hv a, ← h a]
+    simp only [step, del]
+    cases hP : find p g.st.pending with
+    | some i =>
+      simp only
+      rw [eraseIdx_find hI.ndP hP, mem_addrs_filter]
+      have hpP := find_some_mem hP
+      constructor
+      · rintro (h1 | ⟨h1, h2⟩)
+        · exact ⟨Or.inl h1, fun e => hI.dPS _ hpP (e ▸ h1)⟩
+        · exact ⟨Or.inr h1, h2⟩
+      · rintro ⟨h1 | h1, h2⟩
+        · exact Or.inl h1
+        · exact Or.inr ⟨h1, h2⟩
+    | none =>
+      simp only
+      have hnP := find_none.1 hP
+      cases hS : find p g.st.sent with
+      | none =>
+        simp only
+        have hnS := find_none.1 hS
+        constructor
+        · rintro (h1 | h1)
+          · exact ⟨Or.inl h1, fun e => hnS (e ▸ h1)⟩
+          · exact ⟨Or.inr h1, fun e => hnP (e ▸ h1)⟩
+        · exact fun h1 => h1.1
+      | some i =>
+        simp only
+        rw [eraseIdx_find hI.ndS hS]
+        have hnD : find p g.st.pendingDel = none := find_none.2 (hI.dSD _ (find_some_mem hS))
+        simp only [hnD, mem_addrs_filter]
+        constructor
+        · rintro (⟨h1, h2⟩ | h1)
+          · exact ⟨Or.inl h1, h2⟩
+          · exact ⟨Or.inr h1, fun e => hnP (e ▸ h1)⟩
+        · rintro ⟨h1 | h1, h2⟩
+          · exact Or.inl ⟨h1, h2⟩
+          · exact Or.inr h1
+  | send ok =>
+    have hv : aview v [.send ok] = v := rfl
+    rw [hv]
+    cases ok with
+    | false => simp only [step, send_fail]; exact h
+    | true =>
+      rcases send_ok_spec g.st with ⟨e, _, _⟩ | ⟨e, _⟩
+      · simp only [step, e]; exact h
+      · simp only [step, e]
+        intro a
+        rw [← h a]
+        simp only [addrs_append, addrs_take, addrs_drop, List.mem_append]
+        have := mem_take_or_drop (l := addrs g.st.pending) 50 a
+        constructor
+        · rintro ((h1 | h1) | h1)
+          · exact Or.inl h1
+          · exact Or.inr (this.2 (Or.inl h1))
+          · exact Or.inr (this.2 (Or.inr h1))
+        · rintro (h1 | h1)
+          · exact Or.inl (Or.inl h1)
+          · rcases this.1 h1 with h2 | h2
+            · exact Or.inl (Or.inr h2)
+            · exact Or.inr h2
+
+theorem aview_append (l1 : List Op) : ∀ (v : List Addr) (l2 : List Op),
+    aview v (l1 ++ l2) = aview (aview v l1) l2 := by
+  induction l1 with
+  | nil => intro v l2; rfl
+  | cons op ops ih => intro v l2; cases op <;> simp only [List.cons_append, aview, ih]
+
+theorem Tracks_run : ∀ (ops : List Op) (g : G) (v : List Addr), PInv g → Tracks g v →
+    Tracks (run g ops).1 (aview v ops)
+  | [], g, v, _, h => h
+  | op :: ops, g, v, hI, h => by
+    have h1 := Tracks_step hI h op
+    have := Tracks_run ops (step g op).1 (aview v [op]) (PInv_step hI op) h1
+    have e : aview v (op :: ops) = aview (aview v [op]) ops := aview_append [op] v ops
+    rw [e]
+    simp only [run]
+    cases hm : (step g op).2 <;> simpa [hm] using this
+
 end Storrent.Pex
